@@ -752,6 +752,7 @@ func (ep *episode) bind2(jr *jobRun, s sdf.SDF2, r render.Render2, faulty bool) 
 		check(&jr.res.AtReturn)
 		if !faulty && ep.sc.Prop == "C15" {
 			ep.compareBatch2(jr)
+			ep.objectAPI2(jr)
 		}
 	}
 	jr.end = func() {
@@ -985,6 +986,88 @@ func (ep *episode) compareBatch2(jr *jobRun) {
 	for _, n := range st2.notices {
 		n.Msg = "batch writer: " + n.Msg
 		jr.res.Notices = append(jr.res.Notices, n)
+	}
+}
+
+// objectAPI2: the drawing objects behind SaveDXF / SaveSVG used directly, as a
+// program that builds a drawing step by step does: segments added through Line
+// and Lines in seeded portions, with Save calls in between, twice in a row at
+// times and once more at the end. After every Save the file must hold exactly
+// the segments added so far.
+func (ep *episode) objectAPI2(jr *jobRun) {
+	if jr.res.AtReturn != nil && !jr.res.AtReturn.OK {
+		return
+	}
+	lines := jr.state.lines
+	r := simcore.NewRNG(jr.job.CoordSeed ^ uint64(len(lines))*0x9e3779b97f4a7c15 ^ 0x6f626a)
+	st := jr.state
+	st.path = jr.state.path + ".obj." + jr.job.Sink
+	st.ordered = true
+	var dx *render.DXF
+	var sv *render.SVG
+	if jr.job.Sink == "dxf" {
+		dx = render.NewDXF(st.path)
+	} else {
+		sv = render.NewSVG(st.path, "fill:none;stroke:black;stroke-width:0.1")
+	}
+	saves := 0
+	save := func(n int, what string) bool {
+		var err error
+		if dx != nil {
+			err = dx.Save()
+		} else {
+			err = sv.Save()
+		}
+		saves++
+		if err != nil {
+			c := bad("save", "%s object: Save #%d (%s, %d segments): %v", strings.ToUpper(jr.job.Sink), saves, what, n, err)
+			jr.res.AtReturn = &c
+			return false
+		}
+		c := st
+		c.lines = lines[:n]
+		c.notices = nil
+		if ck := c.check(); !ck.OK {
+			ck.Msg = fmt.Sprintf("drawing object, Save #%d (%s, %d segments added so far): %s", saves, what, n, ck.Msg)
+			jr.res.AtReturn = &ck
+			return false
+		}
+		return true
+	}
+	i := 0
+	for i < len(lines) {
+		k := pick(r, []int{1, 1, 2, 3, 5, 37, 300, len(lines)})
+		k = min(k, len(lines)-i)
+		if dx != nil && r.Intn(2) == 0 {
+			dx.Lines(lines[i : i+k])
+		} else {
+			for _, l := range lines[i : i+k] {
+				if dx != nil {
+					dx.Line(l)
+				} else {
+					sv.Line(l[0], l[1])
+				}
+			}
+		}
+		i += k
+		if i < len(lines) && saves < 3 && r.Intn(4) == 0 {
+			if !save(i, "more segments follow") {
+				return
+			}
+			if r.Intn(2) == 0 && !save(i, "again, nothing added") {
+				return
+			}
+		}
+	}
+	if !save(i, "final") {
+		return
+	}
+	if r.Intn(2) == 0 {
+		save(i, "final, again")
+	}
+	ep.jobNote(0, "drawing-object-api")
+	if saves > 2 {
+		ep.jobNote(0, "drawing-object-saved-more-than-twice")
 	}
 }
 
